@@ -7,6 +7,29 @@ props = [json.loads(l) for l in open(os.path.join(HERE, "properties.jsonl")) if 
 out = []
 w = out.append
 
+w("### 11.0 Status per property (counts from `index/`, `findings/`; the claim in words is `level_claimed.text` in MANIFEST.json)\n")
+w("| property | theorems: full / partial / negation | open findings (KNOWN-FINDING) | repaired defects | model, lemma and property files |")
+w("|---|---|---|---|---|")
+for p in props:
+    ip = os.path.join(HERE, "index", p["id"] + ".json")
+    if not os.path.exists(ip):
+        continue
+    idx = json.load(open(ip))
+    c = {"full": 0, "partial": 0, "negation": 0}
+    for t in idx["theorems"]:
+        st = t.get("status", "")
+        k = "full" if st.startswith("full") else "partial" if st.startswith("partial") else "negation"
+        c[k] += 1
+    fo, ff = [], []
+    fp = os.path.join(HERE, "findings", p["id"] + ".json")
+    if os.path.exists(fp):
+        for f in json.load(open(fp))["findings"]:
+            (fo if f["status"] == "open" else ff).append(f["id"])
+    mods = ", ".join("`%s`" % m.replace("EupsModel.", "") for m in idx.get("modules", []))
+    w("| %s %s | %d / %d / %d | %s | %s | %s |" % (p["id"], p["title"][:48], c["full"], c["partial"], c["negation"], ", ".join(fo) or "—", ", ".join(ff) or "—", mods))
+w("")
+w("Defect identifiers are unique per property only: D31–D37 were allocated independently by builders working in parallel, so "
+  "a finding is always named by (property, id).  `fixed:` hashes are those of /repo's main line.\n")
 w("### 11.1 Theorems per property (from `index/Cxx.json`; every one is audited by `#print axioms` on each run)\n")
 tot = {"full": 0, "partial": 0, "negation": 0, "other": 0}
 for p in props:
